@@ -34,7 +34,7 @@ Obligation(r) ==
   ELSE IF r.err THEN "wire-decode-error"                                  \* RFC decoder rejects the wire
   ELSE IF r.out # <<Ev.f>> THEN "wire-roundtrip"                          \* the wire does not mean the input
   ELSE IF Ev.out # <<Ev.f>> THEN "roundtrip"                              \* real decoder output
-  ELSE IF Ev.xerr # "" \/ Ev.xout # <<Ev.f>> THEN "witness"               \* golang.org/x/net decoder
+  ELSE IF ~Ev.xskip /\ (Ev.xerr # "" \/ Ev.xout # <<Ev.f>>) THEN "witness" \* golang.org/x/net decoder
   ELSE IF Upd(Ev.reps) # {} /\ ~Ev.first THEN "update-placement"          \* 4.2
   ELSE IF low < d.max /\ ~(Len(Ev.reps) > 0 /\ Ev.reps[1].k = "upd" /\ Ev.reps[1].i <= low)
          THEN "min-not-signalled"                                         \* 4.2
